@@ -5,7 +5,7 @@ import json, os, shutil, subprocess, sys
 sys.path.insert(0, "/verif"); sys.dont_write_bytecode = True
 from concurrent.futures import ProcessPoolExecutor
 from sa.selftest import failing_keys, _scratch
-PIDS = ["C01","C02","C03","C04","C05","C06","C07","C08","C10","C11","C12","C13","C14","C15","C16","C17","C18"]
+PIDS = (os.environ.get("PIDS") or "C01 C02 C03 C04 C05 C06 C07 C08 C10 C11 C12 C13 C14 C15 C16 C17 C18").split()
 def run(args):
     name, patch, baseline = args
     d = _scratch("/repo")
@@ -33,4 +33,4 @@ if __name__ == "__main__":
         for pid, ks in fired.items():
             for k in ks: print(f"     {pid} {k}")
         out[name] = fired
-    json.dump(out, open("/verif/out/patch_checks.json","w"), indent=1)
+    json.dump(out, open(os.environ.get("PATCH_CHECKS_OUT") or "/verif/out/patch_checks.json","w"), indent=1)
